@@ -75,11 +75,13 @@ type valErr struct{ msg string }
 // pointer (Error)
 type tmPanic struct{ n int }
 
-func (m tmPanic) MarshalText() ([]byte, error) { panic("MarshalText gave up") }
+func (m tmPanic) MarshalText() ([]byte, error) {
+	panic("MarshalText gave up: \"quoted\" back\\slash\nnext line")
+}
 
 type errPanic struct{ n int }
 
-func (e *errPanic) Error() string { panic("Error gave up") }
+func (e *errPanic) Error() string { panic("Error gave up: \"quoted\" back\\slash\nnext line") }
 
 func (e valErr) Error() string { return e.msg }
 
